@@ -123,9 +123,26 @@ def run_case(case):
             if mode == "before":
                 dr, dw = await peer.data_connect()
             target = {"RETR": "RETR src.bin", "STOR": "STOR new.bin", "APPE": "APPE old.bin", "LIST": "LIST sub", "MLSD": "MLSD sub"}[verb]
-            await peer.send(target)
-            info["k_cmd"] = world.net.seq
-            info["phase"] = "cmd-sent"
+            if case.get("pipelined"):
+                # one segment: a command that goes to the (slow) backend, the transfer command and
+                # the ABOR - the ABOR is read while the transfer command is still waiting its turn
+                slow = case["pipelined"]
+                for line in (slow, target, "ABOR"):
+                    peer.note("C", line)
+                peer.writer.write(f"{slow}\r\n{target}\r\nABOR\r\n".encode())
+                info["k_cmd"] = world.net.seq
+                info["abor_sent_at"] = world.net.seq
+                info["abor_time"] = world.loop.time()
+                info["abor_phase"] = "pipelined"
+                info["phase"] = "cmd-sent"
+                try:
+                    info["slow_reply"] = (await peer.reply(1e4))[0]
+                except (PeerGone, ReplyTimeout):
+                    info["slow_reply"] = None
+            else:
+                await peer.send(target)
+                info["k_cmd"] = world.net.seq
+                info["phase"] = "cmd-sent"
             dtask = None
             if mode == "after":
                 # connect while the command is in flight / being handled
@@ -377,6 +394,17 @@ def main(argv=None):
                 d["k"] = k
                 d["follow"] = "reuse" if (k + d["seed"]) % 2 else "pasv"
                 plan.append(d)
+        # pipelined variants (no sweep position: the three lines travel together)
+        pip = []
+        for ci, case in enumerate(combos):
+            if case["connect"] == "never" and case.get("wait") is None and ci % 2:
+                continue
+            for slow in ("MLST src.bin", "NOOP", "CWD /d"):
+                d = {kk: vv for kk, vv in case.items() if kk != "want_sample"}
+                d["pipelined"] = slow
+                d["follow"] = "reuse" if (ci + len(slow)) % 2 else "pasv"
+                pip.append(d)
+        plan = pip + plan
         total = len(plan)
         for c in plan[:2]:
             c["want_sample"] = True
